@@ -1,8 +1,14 @@
 package main
 
 import (
+	"context"
 	"crypto/sha256"
+	"flag"
 	"fmt"
+	"os"
+	"os/exec"
+	"strings"
+	"sync"
 
 	"verifharness/internal/impl"
 	"verifharness/internal/progen"
@@ -13,7 +19,10 @@ import (
 	"math/big"
 )
 
-func init() { commands["determinism"] = cmdDeterminism }
+func init() {
+	commands["determinism"] = cmdDeterminism
+	commands["determinism-one"] = cmdDeterminismOne
+}
 
 type detCase struct {
 	Idx     int      `json:"idx"`
@@ -22,6 +31,7 @@ type detCase struct {
 	Repeats int      `json:"repeats"`
 	Digests []string `json:"distinct_serialisations"`
 	Size    int      `json:"serialisation_bytes"`
+	Fresh   string   `json:"fresh_process_run,omitempty"`
 	Oracle  []string `json:"oracle_fail,omitempty"`
 }
 
@@ -30,9 +40,70 @@ func short(s string) string { return fmt.Sprintf("%x", sha256.Sum256([]byte(s)))
 // Equal executions give byte-identical results and tracer views: the same history / transaction is
 // replayed R times in fresh instances, interleaved with unrelated work, and every query answer — in
 // the order the API returns it — is serialised and compared.
+// detUniverse is the universe of the whole-transaction cases (shared by the parent and the fresh child processes).
+func detUniverse() (progen.Universe, []string) {
+	u := progen.DefaultUniverse()
+	u.Precomp = []common.Address{common.BigToAddress(big.NewInt(4)), common.BigToAddress(big.NewInt(0x64)), common.BigToAddress(big.NewInt(0x66))}
+	return u, []string{"Byzantium", "Istanbul", "Berlin", "London", "Shanghai", "Cancun"}
+}
+
+// detTransaction runs the transaction drawn from seed once and returns the digest of its serialisation
+// ("" when the case is skipped, "panic:..." on a Go panic).
+func detTransaction(seed uint64) (digest string, size int, pan string) {
+	u, forks := detUniverse()
+	ec, w, code0 := genExecCase(rng.New(seed), u, forks)
+	run := runScenario(&ec, w, u, code0, true)
+	if run.pan != "" {
+		return "", 0, run.pan
+	}
+	if len(run.rec.Events) > 2500 {
+		return "", 0, ""
+	}
+	line, skipped := buildExecLine(&ec, run, w, u, code0, true)
+	if skipped != "" {
+		return "", 0, ""
+	}
+	return short(line), len(line), ""
+}
+
+// determinism-one: the transaction of one seed as the FIRST thing this process executes; prints its digest.
+func cmdDeterminismOne(args []string) error {
+	fs := flag.NewFlagSet("determinism-one", flag.ExitOnError)
+	seed := fs.Uint64("seed", 0, "transaction seed")
+	fs.Parse(args)
+	d, _, pan := detTransaction(*seed)
+	if pan != "" {
+		fmt.Println("panic:" + pan)
+		return nil
+	}
+	fmt.Println("digest:" + d)
+	return nil
+}
+
+// warmUp makes sure this process has already run unrelated executions that reach every Artela precompile with a
+// call context before the compared transactions start (package-level state left behind by them must not matter).
+func warmUp() {
+	installHost()
+	payload := encodeKV([]byte("warm"), []byte("up"))
+	for _, a := range []int64{0x64, 0x65, 0x66} {
+		env := impl.NewEnv(impl.Opts{Fork: "Cancun", JP: true})
+		to := common.BigToAddress(big.NewInt(a))
+		env.Prepare(&to)
+		impl.Guard(func() {
+			env.EVM.Call(context.Background(), vm.AccountRef(common.HexToAddress("0x00000000000000000000000000000000000d00d1")), to, payload, 100000, big.NewInt(0))
+		})
+	}
+}
+
 func cmdDeterminism(args []string) error {
 	c := newCommon("determinism")
 	c.fs.Parse(args)
+	warmUp()
+	self, _ := os.Executable()
+	var wg sync.WaitGroup
+	sem := make(chan struct{}, 12)
+	var mu sync.Mutex
+	childOut := map[uint64]string{}
 	r := rng.New(c.seed)
 	R := 20
 	if c.tier == "thorough" {
@@ -40,9 +111,7 @@ func cmdDeterminism(args []string) error {
 	}
 	var cases []detCase
 	stats := map[string]int{}
-	u := progen.DefaultUniverse()
-	u.Precomp = []common.Address{common.BigToAddress(big.NewInt(4)), common.BigToAddress(big.NewInt(0x64)), common.BigToAddress(big.NewInt(0x66))}
-	forks := []string{"Byzantium", "Istanbul", "Berlin", "London", "Shanghai", "Cancun"}
+	u, forks := detUniverse()
 	for i := 0; i < c.n; i++ {
 		seed := r.U64()
 		other := r.U64()
@@ -72,6 +141,21 @@ func cmdDeterminism(args []string) error {
 		// whole transaction
 		cs := detCase{Idx: len(cases), Kind: "transaction", Seed: seed, Repeats: 4}
 		seen := map[string]bool{}
+		// the same transaction as the first execution of a fresh process (compared below)
+		wg.Add(1)
+		go func(seed uint64) {
+			defer wg.Done()
+			sem <- struct{}{}
+			defer func() { <-sem }()
+			out, err := exec.Command(self, "determinism-one", "--seed", fmt.Sprint(seed)).Output()
+			res := strings.TrimSpace(string(out))
+			if err != nil {
+				res = "child failed: " + err.Error()
+			}
+			mu.Lock()
+			childOut[seed] = res
+			mu.Unlock()
+		}(seed)
 		for k := 0; k < 4; k++ {
 			ec, w, code0 := genExecCase(rng.New(seed), u, forks)
 			run := runScenario(&ec, w, u, code0, true)
@@ -86,7 +170,7 @@ func cmdDeterminism(args []string) error {
 			if skipped != "" {
 				break
 			}
-			seen[line] = true
+			seen[short(line)] = true
 			cs.Size = len(line)
 			// a second, untouched EVM instance must not see anything of this execution
 			env2 := impl.NewEnv(impl.Opts{Fork: ec.Fork})
@@ -99,7 +183,7 @@ func cmdDeterminism(args []string) error {
 			}
 		}
 		for l := range seen {
-			cs.Digests = append(cs.Digests, short(l))
+			cs.Digests = append(cs.Digests, l)
 		}
 		if len(seen) > 1 {
 			cs.Oracle = append(cs.Oracle, fmt.Sprintf("C16: %d different serialisations (result, events, call tree, journal, world) over 4 runs of one transaction on equal pre-state", len(seen)))
@@ -107,6 +191,19 @@ func cmdDeterminism(args []string) error {
 		if len(seen) >= 1 {
 			stats["transaction"]++
 			cases = append(cases, cs)
+		}
+	}
+	wg.Wait()
+	for i := range cases {
+		cs := &cases[i]
+		if cs.Kind != "transaction" || len(cs.Digests) != 1 {
+			continue
+		}
+		out := childOut[cs.Seed]
+		cs.Fresh = out
+		stats["fresh-process-runs"]++
+		if out != "digest:"+cs.Digests[0] {
+			cs.Oracle = append(cs.Oracle, fmt.Sprintf("C16: the transaction of seed %d gives %q as the first execution of a fresh process but digest %s after unrelated executions in this process (state shared between EVM instances); replay: vh determinism-one --seed %d", cs.Seed, out, cs.Digests[0], cs.Seed))
 		}
 	}
 	_ = vm.ErrOutOfGas
